@@ -111,7 +111,7 @@ func sha(b []byte) string {
 	return hex.EncodeToString(s[:6])
 }
 
-var hostileTaskNames = []string{"plain", "with space", "dots.and.more", "ünï-cödé-任务", "a", "a-stdout", "a-stdout.log", "../x", "sub/dir", "..", "%2F", "a%2Fb", "a/b", "-dash", "tab\tname", "quote'\"q"}
+var hostileTaskNames = []string{"plain", "with space", "dots.and.more", "ünï-cödé-任务", "a", "a-stdout", "a-stdout.log", "../x", "sub/dir", "..", "%2F", "a%2Fb", "a/b", "-dash", "tab\tname", "quote'\"q", "plain ", " lead", "tab\t"}
 
 // ---------------------------------------------------------------------------------------------------------------
 // C19: task output captured completely and attributed correctly
@@ -502,7 +502,13 @@ func RunOutputCase(seed int64, o OutputOpts) *HistResult {
 			}
 		}
 		// a task the job does not have is refused, also if another job has it
-		for _, other := range []string{"no-such-task", "slow-canceled", hostileTaskNames[r.Intn(len(hostileTaskNames))]} {
+		foreign := []string{"no-such-task", "slow-canceled", hostileTaskNames[r.Intn(len(hostileTaskNames))]}
+		if len(tasksOf[j.pipe]) > 0 {
+			// a name that differs from an existing one only by surrounding white space is another name
+			n0 := tasksOf[j.pipe][r.Intn(len(tasksOf[j.pipe]))].name
+			foreign = append(foreign, n0+" ", " "+n0, strings.TrimSpace(n0))
+		}
+		for _, other := range foreign {
 			has := false
 			for _, ot := range tasksOf[j.pipe] {
 				if ot.name == other {
